@@ -44,18 +44,23 @@ PostOK(e) ==
 
 (* the geometry must be a function of the context while the hyperplanes / the clustering / a tree are unchanged *)
 GeoFunctional ==
-    CASE NP \in {"lsh", "clusters"} -> \A i, j \in DOMAIN hist' : hist'[i].x = hist'[j].x => hist'[i].g = hist'[j].g
-      [] NP = "tree" -> \A i, j \in DOMAIN hist' :
-                           (hist'[i].x = hist'[j].x /\ hist'[i].a = hist'[j].a /\ hist'[i].a \in RangeS(arms')
-                            /\ i > since'[hist'[i].a] /\ j > since'[hist'[i].a]) => hist'[i].g = hist'[j].g
+    CASE NP \in {"lsh", "clusters"} -> \A i, j \in DOMAIN hist : hist[i].x = hist[j].x => hist[i].g = hist[j].g
+      [] NP = "tree" -> \A i, j \in DOMAIN hist :
+                           (hist[i].x = hist[j].x /\ hist[i].a = hist[j].a /\ hist[i].a \in RangeS(arms)
+                            /\ i > since[hist[i].a] /\ j > since[hist[i].a]) => hist[i].g = hist[j].g
       [] OTHER -> TRUE
 
+(* the invariants of Nbhd.tla on the CURRENT state, i.e. the state the previous event produced (position l - 1);   *)
+(* written without primes: TLC evaluates primed operator applications inside an action without caching               *)
+CheckState(name, cond) == IF cond THEN TRUE ELSE PrintT(<<"FAIL", tid, l - 1, name>>) /\ FALSE
+AfterTraining == l > 1 /\ Traces[tid].events[l - 1].op \in {"fit", "partial_fit"}
 StateOK ==
-    /\ Check("geometry.functional", GeoFunctional)
-    /\ Check("Inv_C11_Tables", Inv_C11_Tables')
-    /\ Check("Inv_C11_Self", Inv_C11_Self')
-    /\ Check("Inv_C12_Leaves", Inv_C12_Leaves')
-    /\ Check("Inv_C08_Keys", Inv_C08_Keys')
+    AfterTraining =>
+        /\ CheckState("geometry.functional", GeoFunctional)
+        /\ CheckState("Inv_C11_Tables", Inv_C11_Tables)
+        /\ CheckState("Inv_C11_Self", Inv_C11_Self)
+        /\ CheckState("Inv_C12_Leaves", Inv_C12_Leaves)
+        /\ CheckState("Inv_C08_Keys", Inv_C08_Keys)
 
 QueryGeoOK(e) ==      \* the query's geometry agrees with stored rows at the same context
     CASE NP \in {"lsh", "clusters"} -> \A i \in DOMAIN hist : hist[i].x = e.q => hist[i].g = e.qg
@@ -64,12 +69,13 @@ QueryGeoOK(e) ==      \* the query's geometry agrees with stored rows at the sam
 TNext ==
     /\ l <= Len(Traces[tid].events)
     /\ l' = l + 1 /\ UNCHANGED tid
+    /\ StateOK
     /\ LET e == Ev IN
-       CASE e.op = "fit" -> Fit(e.rows) /\ PostOK(e) /\ StateOK
+       CASE e.op = "fit" -> Fit(e.rows) /\ PostOK(e)
          [] e.op = "partial_fit" ->
                /\ Check("geometry.cells_cover_history",
                         (NP = "clusters" /\ fitted) => Len(e.allg) = Len(hist) + Len(e.rows))    \* k-means refit on every stored row
-               /\ PartialFit(e.rows, e.allg) /\ PostOK(e) /\ StateOK
+               /\ PartialFit(e.rows, e.allg) /\ PostOK(e)
          [] e.op = "add_arm" -> AddArm(e.arm, e.bin) /\ PostOK(e)
          [] e.op = "remove_arm" -> RemoveArm(e.arm) /\ PostOK(e)
          [] e.op = "query" ->
@@ -79,6 +85,6 @@ TNext ==
 
 TSpec == TInit /\ [][TNext]_tvars
 
-Done == (l = Len(Traces[tid].events) + 1) => PrintT(<<"DONE", tid>>)
+Done == (l = Len(Traces[tid].events) + 1) => (IF StateOK THEN PrintT(<<"DONE", tid>>) ELSE TRUE)
 TView == <<View, tid, l>>
 =============================================================================
